@@ -19,3 +19,13 @@ import CosetProofs.Ties.HeaderFields
 import CosetProofs.Ties.RemoveFields
 import CosetProofs.Ties.EmitOrder
 import CosetProofs.Ties.IanaMacro
+import CosetProofs.Ties.Budget.Header
+import CosetProofs.Ties.Budget.Sign
+import CosetProofs.Ties.Budget.Mac
+import CosetProofs.Ties.Budget.Encrypt
+import CosetProofs.Ties.Budget.Key
+import CosetProofs.Ties.Budget.Cwt
+import CosetProofs.Ties.Budget.Context
+import CosetProofs.Ties.Budget.Common
+import CosetProofs.Ties.Budget.Util
+import CosetProofs.Ties.Budget.Iana
